@@ -148,6 +148,11 @@ func (ir *ifdReader) discard(n int) (err error) {
 		ir.po += uint32(discarded)
 		n -= discarded
 	}
+	if n <= 0 {
+		// everything was skipped: an error delivered together with the last
+		// bytes (io.EOF) belongs to the next read
+		return nil
+	}
 	return err
 }
 
